@@ -8,6 +8,7 @@
     precedence rule of JSightApi!Catalog predicts (tags, titles, descriptions, membership).
 (3) An undeclared tag in a Tags directive that is consulted is rejected."""
 import json
+import random
 
 import apidoc
 import c04
@@ -60,6 +61,11 @@ def main(tier):
         text = apidoc.render(m["doc"])[0]
         cases.append(rel.case("t%d" % n, text))
         meta["t%d" % n] = (m, text)
+        # URL-level Tags written after the methods of the block (last method in explicit parentheses)
+        late = apidoc.render(m["doc"], apidoc.Style(late=1.0, rnd=random.Random(n)))[0]
+        if late != text:
+            cases.append(rel.case("l%d" % n, late))
+            meta["l%d" % n] = (m, late)
     obs = harness("run", cases)
     for cid, (m, text) in meta.items():
         o = obs[cid]
